@@ -32,6 +32,7 @@ Proof.
   - apply good_at_set; auto. intro. apply good_weaken. apply good_delslice; auto.
   - apply good_construct; auto.
   - apply good_at_set; auto. intro. apply good_set_value; auto.
+  - apply good_at_set; auto. intro. apply good_set_extend; auto.
   - apply good_rename; auto.
   - apply good_set_semantic_id; auto.
   - apply good_weaken. apply good_owner_add; auto.
